@@ -463,6 +463,132 @@ def check_session(ctx, url, listing=False, username=None, password=None, where='
             return
 
 
+# ------------------------------------------------------------------ whole session: start + download / listing
+class ScriptedFtp(FtpServer):
+    """FtpServer whose answer to RETR / LIST / MLSD is scripted: `pre` (normally a 150 reply) and the closing reply
+    bytes, glued into one send or sent apart; the data connection serves `dsegs` and ends as told."""
+
+    def __init__(self, net, plan):
+        FtpServer.__init__(self, net, mlsd=plan.get('mlsd', True))
+        self.plan = plan
+
+    def handle(self, conn, line):
+        verb = line.split(b' ', 1)[0].upper()
+        if verb in (b'RETR', b'LIST', b'MLSD') and not (verb == b'MLSD' and not self.mlsd):
+            # after the closing reply the server hangs up (the model's control stream is finite)
+            if self.plan['glue']:
+                conn.send(self.plan['pre'] + b''.join(self.plan['closing']))
+                conn.close()
+            else:
+                conn.send(self.plan['pre'])
+                self.net.feeders.append(asyncio.ensure_future(conn.send_segments(self.plan['closing'], eof=True, yields=self.plan.get('yields', 1))))
+            return
+        if verb == b'SIZE':
+            conn.send(b'213 %d\r\n' % len(b''.join(self.plan['dsegs'])))
+            return
+        FtpServer.handle(self, conn, line)
+
+
+def real_download(plan):
+    """The real Session.start + download (or start_listing + download_listing). -> ('complete', body, code) | ('exc', cls) | ('stalled',)"""
+    from wpull.protocol.ftp.client import Client
+    from wpull.protocol.ftp.request import Request
+    from wpull.network.pool import ConnectionPool
+    import io
+
+    feeders = []
+
+    class Data:
+        async def serve(self, conn):
+            fut = asyncio.ensure_future(conn.send_segments(plan['dsegs'], eof=plan['end']))
+            feeders.append(fut)
+            await fut
+
+    async def go():
+        net = fakenet.FakeNet()
+        net.feeders = feeders
+        net.listen('10.0.0.1', 21, lambda: ScriptedFtp(net, plan))
+        net.listen('10.0.0.1', 2020, Data)
+        with net:
+            client = Client(connection_pool=ConnectionPool(resolver=fakenet.FakeResolver()))
+            request = Request('ftp://h/dir/' if plan['listing'] else 'ftp://h/dir/f.bin')
+            if plan.get('restart'):
+                request.restart_value = plan['restart']
+            out = io.BytesIO()
+            session = client.session()
+            with session:
+                async def run_it():
+                    if plan['listing']:
+                        await compat._ensure(session.start_listing(request))
+                        return await compat._ensure(session.download_listing(out))
+                    await compat._ensure(session.start(request))
+                    return await compat._ensure(session.download(out))
+                task = asyncio.ensure_future(run_it())
+                done = await fakenet.settle(task, feeders, extra=300)
+                if not done:
+                    task.cancel()
+                    try:
+                        await task
+                    except BaseException:
+                        pass
+                    session.abort()
+                    return ('stalled',)
+                try:
+                    resp = task.result()
+                except Exception as e:
+                    session.abort()
+                    return ('exc', classify_exc(e))
+                return ('complete', out.getvalue(), resp.reply.code)
+    return arun(go())
+
+
+def stream_download(ctx, n):
+    rng = ctx.subrng('download')
+    plans = []
+    for _ in range(n):
+        listing = rng.random() < 0.3
+        if listing:
+            data = b''.join(rng.choice([b'-rw-r--r-- 1 u g 3 Jan 01 2020 a.txt\r\n', b'drwxr-xr-x 2 u g 4096 Jan 01 00:00 d\r\n']) for _ in range(rng.randint(0, 3)))
+        else:
+            data = bytes(rng.randrange(256) for _ in range(rng.choice([0, 1, 5, 40, 5000])))
+        r = rng.random()
+        closing = rng.choice([b'226 done\r\n', b'226 done\r\n', b'226-a\r\n226 b\r\n', b'226-Sent\r\n2260 of 5000 bytes\r\n226 ok\r\n', b'426 aborted\r\n',
+                              b'426-Connection closed\r\n 226 blocks\r\n426 aborted\r\n', b'', b'226 done', b'226 done\r', b'550 no\r\n', b'150 again\r\n226 x\r\n',
+                              b'226-x\x0c226 y\r\n426 no\r\n'])
+        plans.append({'listing': listing, 'mlsd': rng.random() < 0.7,
+                      'dsegs': fakenet.segment(data, fakenet.random_cuts(rng, len(data))),
+                      'end': True if r < 0.65 else 'reset' if r < 0.85 else False,
+                      'pre': rng.choice([b'150 here\r\n', b'150 here\r\n', b'125 already open\r\n', b'150-a\r\n150 b\r\n']),
+                      'closing': fakenet.segment(closing, fakenet.random_cuts(rng, len(closing))),
+                      'glue': rng.random() < 0.4, 'yields': rng.choice([0, 1, 3]),
+                      'restart': rng.choice([None, None, 3])})
+    reqs = ['ftp transfer %s %s %s' % (enc_segs(p['dsegs']), 'R' if p['end'] == 'reset' else 'T' if p['end'] else 'F', enc_segs(p['closing'])) for p in plans]
+    replies = ctx.model.ask(reqs)
+    for p, rep in zip(plans, replies):
+        res = real_download(p)
+        data = b''.join(p['dsegs'])
+        ctx.case(('download', repr(sorted(p.items()))), tags=['download:' + res[0] + (':listing' if p['listing'] else ''), 'download:end=%s' % p['end']])
+        case = dict(p, stream='download')
+        if res[0] == 'complete':
+            whole = b''.join(p['closing']).split(b'\n')[:-1]
+            if p['end'] is not True or res[2] != 226 or not any(l.startswith(b'226 ') for l in whole) or (not p['listing'] and res[1] != data):
+                ctx.fail('premature-complete', 'Session.download', case,
+                         'session reported a completed transfer: data end=%s, reply %s, %d of %d bytes' % (p['end'], res[2], len(res[1]), len(data)))
+            real = 'complete %s %s' % ('-' if p['listing'] else enc(res[1]), res[2])
+        else:
+            real = res[0] if res[0] != 'exc' else 'exc ' + res[1]
+        # the model's verdict for the same data stream / ending / closing-reply bytes
+        if rep.startswith('complete'):
+            parts = rep.split(' ')
+            model = 'complete %s %s' % ('-' if p['listing'] else parts[1], parts[2])
+        else:
+            model = rep
+        if model.split(' ')[0] != real.split(' ')[0] or (model.startswith('complete') and model != real):
+            ctx.disagree('download', case, model, real)
+    if plans:
+        ctx.sample({'stream': 'download', 'plan': {k: v for k, v in plans[0].items()}})
+
+
 def session_urls(byte_values):
     for b in byte_values:
         e = '%%%02X' % b
@@ -503,6 +629,12 @@ def replay(ctx, case, kind=None, where=None):
     elif s == 'reply':
         data = case['data']
         stream_reply(ctx, [data], [[cuts_of(case['segs_a']), cuts_of(case['segs_b'])]])
+    elif s == 'download':
+        res = real_download(case)
+        ctx.case(('download', repr(sorted((k, repr(v)) for k, v in case.items()))))
+        whole = b''.join(case['closing']).split(b'\n')[:-1]
+        if res[0] == 'complete' and (case['end'] is not True or res[2] != 226 or not any(l.startswith(b'226 ') for l in whole)):
+            ctx.fail('premature-complete', 'Session.download', case, 'session reported a completed transfer: data end=%s reply %s' % (case['end'], res[2]))
     elif s == 'transfer':
         stream_transfer(ctx, [(case['data'], case['eof'], case['ctrl'])])
     else:
@@ -546,6 +678,7 @@ def run(ctx):
         r = rng.random()
         tcases.append((dsegs, True if r < 0.65 else 'reset' if r < 0.85 else False, csegs))   # closed / RST / never closed
     stream_transfer(ctx, tcases)
+    stream_download(ctx, ctx.scale(200, 4000))
     # session oracle: exhaustive single-byte injection
     for url in session_urls(range(256)):
         check_session(ctx, url, listing=False)
